@@ -267,6 +267,7 @@ func (cr *checkRun) report(evPath string, t0 time.Time, seed int, quiet bool, ve
 	var samples []interface{}
 	var funcs []string
 	var perFunc []map[string]interface{}
+	slow := []map[string]interface{}{}
 	inlinedAll := map[string]bool{}
 	for _, k := range cr.order {
 		r := cr.results[k]
@@ -292,6 +293,9 @@ func (cr *checkRun) report(evPath string, t0 time.Time, seed int, quiet bool, ve
 				continue
 			}
 			solverMs += or.Solve.Millis
+			if or.Solve.Millis >= 3000 && or.Obl.Kind != "cover" {
+				slow = append(slow, map[string]interface{}{"obligation": or.Obl.Name, "solver_ms": or.Solve.Millis, "backend": or.Solve.Backend, "status": or.Status})
+			}
 			if or.Obl.Kind == "cover" {
 				covers++
 				switch or.Status {
@@ -368,6 +372,7 @@ func (cr *checkRun) report(evPath string, t0 time.Time, seed int, quiet bool, ve
 		"per_function":             perFunc,
 		"backends":                 backends,
 		"solver_ms_total":          solverMs,
+		"slow_obligations":         slow,
 		"covers":                   covers,
 		"covers_ok":                coversOK,
 		"known_findings_seen":      knownSeen,
